@@ -700,6 +700,18 @@ Proof.
   intros Hl E. pose proof (map_retain_conserves_keys c keep delta s Hl) as H. unfold wpp in H. rewrite E in H. exact H.
 Qed.
 
+(* drain_filter, consumed for any number of items and then dropped or forgotten: every key
+   object the map held is afterwards still stored, or in the ledger, or among the yielded
+   elements - exactly once *)
+Lemma T_C06_drain_filter_conserves_keys c take delta j forget s out s' :
+  lite s -> map_drain_filter c take delta j forget s = Ok out s' ->
+  lite s' /\ exists yielded, out = map elem3 yielded /\
+    dks s' ++ map ekid (elems (s_rt s')) ++ map ekid yielded ≡ₚ dks s ++ map ekid (elems (s_rt s)).
+Proof.
+  intros Hl E. pose proof (map_drain_filter_conserves_keys c take delta j forget s Hl) as H.
+  unfold wpp in H. rewrite E in H. exact H.
+Qed.
+
 (* the hypothesis [lite] holds in every reachable state: it is part of the invariant *)
 Lemma T_C06_lite_reachable R Esz s : Inv R Esz (s_rt s) -> lite s.
 Proof. apply Inv_lite. Qed.
